@@ -105,7 +105,7 @@ def pk_roles(pk):
     if not kv:
         raise Undecided('parse_keywords: (key, value) = line.split(...) not found')
     K, V = kv[0].targets[0].elts[0].id, kv[0].targets[0].elts[1].id
-    loops = [n for n in walk_unit(pk) if isinstance(n, ast.For) and isinstance(n.target, ast.Name) and 'split' in src(n.iter)]
+    loops = [n for n in walk_unit(pk) if isinstance(n, ast.For) and isinstance(n.target, ast.Name) and any(x is kv[0] for x in ast.walk(n))]
     L = loops[0].target.id if loops else None
     fk = names_defined_by(pk, lambda v: isinstance(v, ast.BoolOp) and any(isinstance(c, ast.Compare) and const(c.left) == '=' for c in ast.walk(v)))
     SP = names_defined_by(pk, lambda v: isinstance(v, ast.Call) and callee_attr(v) == 'split' and v.args and const(v.args[0]) == '=' and dotted(receiver(v)) == L)
@@ -113,7 +113,7 @@ def pk_roles(pk):
 
 
 def r13_3(run):
-    pk = run.idx.unit(MOD + '.parse_keywords')
+    pk = inline_local_helpers(run.idx.unit(MOD + '.parse_keywords'))
     g = cfg_of(pk)
     defs = local_defs(pk)
     ro = pk_roles(pk)
@@ -159,6 +159,19 @@ def r13_3(run):
                 okc = dotted(x.func) == 'unquote' and len(x.args) == 1 and dotted(x.args[0]) == V
                 run.ob('R13.3', pk, x, 'a stored value passes only through unquote()', okc, slot='value-transform',
                        message='parse_keywords stores %s' % src(x)[:60])
+    # no line of a value is dropped: the reply terminator "OK" may be skipped in the last position only
+    loop = [n for n in walk_unit(pk) if isinstance(n, ast.For) and isinstance(n.target, ast.Name) and n.target.id == L]
+    inloop = [t for lp_ in loop for t in ast.walk(lp_) if isinstance(t, ast.Compare) and const(t.comparators[0]) == 'OK' and any(isinstance(x, ast.Name) and x.id == L for x in ast.walk(t.left))]
+    for t in inloop:
+        run.ob('R13.3', pk, t, 'no line of a value is dropped inside the line loop', False, slot='ok-line-dropped:any-position',
+               message='parse_keywords skips every line that reads "OK", wherever it stands: a multi-line value (e.g. config-text) containing such a line comes back without it')
+    pre = [t for t in walk_unit(pk) if isinstance(t, ast.Compare) and const(t.comparators[0]) == 'OK' and t not in inloop]
+    for t in pre:
+        last = any(isinstance(x, ast.Subscript) and const(x.slice) == -1 for x in ast.walk(t.left))
+        run.ob('R13.3', pk, t, 'a value whose last line reads "OK" keeps it', False if last else None, slot='ok-line-dropped:last-line',
+               message='parse_keywords removes a trailing "OK" line as the reply terminator; after _broadcast_response has already cut the terminator off a '
+                       'command reply, that line is the last line of the value (ambiguity kept because event payloads still carry their terminator)')
+    run.ob('R13.3', pk, pk.node, 'OK-line handling examined', True)
     # repeated keys accumulate in arrival order: [old, new] then append
     lists = [s for s in stores if isinstance(s.value, ast.List) and len(s.value.elts) == 2]
     ok = bool(lists) and all(isinstance(s.value.elts[0], ast.Subscript) and dotted(s.value.elts[0].value) == R and any(isinstance(x, ast.Name) and x.id == V for x in ast.walk(s.value.elts[1])) for s in lists)
@@ -267,11 +280,16 @@ def r13_6(run):
     # the reply text is cut into lines at LF only, keeping empty lines (str.splitlines drops a final empty line and also
     # splits at \r, \x0b, \x0c, \x1c-\x1e, \x85, \u2028, \u2029)
     pk = run.idx.unit(MOD + '.parse_keywords')
-    lp = [n for n in walk_unit(pk) if isinstance(n, ast.For)]
+    L_ = pk_roles(pk)['L']
+    lp = [n for n in walk_unit(pk) if isinstance(n, ast.For) and isinstance(n.target, ast.Name) and n.target.id == L_]
     for n in lp[:1]:
         it = n.iter
+        if isinstance(it, ast.Name):
+            d = [x for x in local_defs(pk).get(it.id, []) if x[0] == 'expr']
+            if len(d) == 1:
+                it = d[0][1]
         good = isinstance(it, ast.Call) and callee_attr(it) == 'split' and len(it.args) == 1 and const(it.args[0]) == '\n' and dotted(receiver(it)) == pk.params[0]
-        bad = isinstance(it, ast.Call) and callee_attr(it) in ('splitlines',) or (isinstance(it, ast.Call) and callee_attr(it) == 'split' and not it.args)
+        bad = any(isinstance(x, ast.Call) and (callee_attr(x) == 'splitlines' or (callee_attr(x) == 'split' and not x.args)) for x in ast.walk(it))
         run.ob('R13.6', pk, n, 'the reply is cut into lines at LF only and empty lines are kept', True if good else (False if bad else None), slot='line-split',
                message='parse_keywords iterates %s: %s' % (src(it)[:40], 'a blank last line of a multi-line value is dropped and other separators split lines' if bad else 'shape not recognised'))
 
@@ -338,7 +356,8 @@ RULES = [
 from ..selftest import M  # noqa: E402
 F = 'txtorcon/torcontrolprotocol.py'
 MUTANTS = [
-    M('splitlines', F, "    for line in lines.split('\\n'):", "    for line in lines.splitlines():", ['R13.6']),
+    M('ok-skipped-anywhere', F, "    for line in all_lines:\n", "    for line in all_lines:\n        if line.strip() == 'OK':\n            continue\n", ['R13.3']),
+    M('splitlines', F, "    all_lines = lines.split('\\n')", "    all_lines = lines.splitlines() or ['']", ['R13.6']),
     M('unquote-by-strip', F, "    if word[0] == '\"' and word[-1] == '\"':\n        return word[1:-1]", "    if word[0] == '\"' and word[-1] == '\"':\n        return word.strip('\"')", ['R13.6']),
     M('final-value-rstripped', F, "    if key:\n        if key in rtn:", "    if key:\n        value = value.rstrip()\n        if key in rtn:", ['R13.3']),
     M('stored-value-stripped', F, "        else:\n            rtn[key] = unquote(value)\n    return rtn", "        else:\n            rtn[key] = unquote(value.strip())\n    return rtn", ['R13.3']),
@@ -355,6 +374,33 @@ MUTANTS = [
     M('single-default-mapped', F, "        d.addCallback(lambda kw: list(kw.values())[0])", "        d.addCallback(lambda kw: list(kw.values())[0] or DEFAULT_VALUE)", ['R13.5']),
 ]
 TWINS = [
+    M('store-helper-correct', F, ["""    # FIXME could use some refactoring to reduce code duplication!
+    all_lines""", """                if key in rtn:
+                    if isinstance(rtn[key], list):
+                        rtn[key].append(unquote(value))
+                    else:
+                        rtn[key] = [rtn[key], unquote(value)]
+                else:
+                    rtn[key] = unquote(value)
+""", """        if key in rtn:
+            if isinstance(rtn[key], list):
+                rtn[key].append(unquote(value))
+            else:
+                rtn[key] = [rtn[key], unquote(value)]
+        else:
+            rtn[key] = unquote(value)
+    return rtn
+"""], ["""
+    def add_value(key, value):
+        if key in rtn:
+            if isinstance(rtn[key], list):
+                rtn[key].append(value)
+            else:
+                rtn[key] = [rtn[key], value]
+        else:
+            rtn[key] = value
+
+    all_lines""", "                add_value(key, unquote(value))\n", "        add_value(key, unquote(value))\n    return rtn\n"]),
     M('hints-list', F, "        d.addCallback(parse_keywords, key_hints=args)", "        d.addCallback(parse_keywords, key_hints=list(args))"),
     M('dot-index-test', F, "        if line.startswith('.'):\n            line = line[1:]\n", "        if line[:1] == '.':\n            line = line[1:]\n"),
 ]
